@@ -7,6 +7,8 @@
 (*   ReturnErr    enabled iff e takes a STRING and the string is invalid   *)
 (*                (or unscoped); never for js_path_process on a parsed     *)
 (*                query: evaluating a parsed query always succeeds         *)
+(*   ReturnRef    reference / reference_mut take ANY string as a path and   *)
+(*                answer Some or None (never Err, never anything else)      *)
 (* There is NO action for panic, abort or timeout: a recorded trace that   *)
 (* contains such an event, or a call without a return, is not a behaviour  *)
 (* of this specification (Trace_Api.tla).                                  *)
@@ -41,6 +43,8 @@ D(str) == str
 MaxI == BigDigits(0)             \* 9007199254740991
 I64Max == <<57,50,50,51,51,55,50,48,51,54,56,53,52,55,55,53,56,48,55>>      \* 9223372036854775807
 I64MaxP1 == <<57,50,50,51,51,55,50,48,51,54,56,53,52,55,55,53,56,48,56>>    \* 9223372036854775808
+U64Max == <<49,56,52,52,54,55,52,52,48,55,51,55,48,57,53,53,49,54,49,53>>   \* 18446744073709551615
+U64MaxP1 == <<49,56,52,52,54,55,52,52,48,55,51,55,48,57,53,53,49,54,49,54>> \* 18446744073709551616
 Neg(s) == <<45>> \o s
 Br(s) == <<36, 91>> \o s \o <<93>>
 CmpLit(s) == <<36, 91, 63, 64, 46, 97, 61, 61>> \o s \o <<93>>                 \* $[?@.a==<lit>]
@@ -60,12 +64,18 @@ ExtremeQ == <<
   <<36>>, <<>>, <<36, 36>>, <<64>>, <<36, 46>>, <<36, 46, 46>>, <<36, 91>>, <<36, 91, 93>>, <<36, 91, 63>>, <<36, 91, 63, 93>>, <<36, 91, 39>>, <<36, 91, 39, 92>>,
   <<36, 91, 39, 92, 117>>, <<36, 91, 39, 92, 117, 68, 56, 48, 48, 39, 93>>, <<36, 91, 39, 92, 117, 68, 56, 48, 48, 92, 117, 39, 93>>, <<36, 91, 63, 64, 61, 61>>,
   <<36, 91, 63, 40>>, <<36, 91, 63, 33>>, <<36, 91, 63, 108, 101, 110, 103, 116, 104, 40>>, <<36, 91, 58, 58, 58, 93>>, <<36, 91, 45, 93>>, <<36, 46, 46, 46, 97>>,
-  <<36, 91, 63, 64, 46, 97, 61, 61, 39, 92, 117, 68, 56, 51, 68, 92, 117, 68, 69, 48, 48, 39, 93>> >>
+  <<36, 91, 63, 64, 46, 97, 61, 61, 39, 92, 117, 68, 56, 51, 68, 92, 117, 68, 69, 48, 48, 39, 93>>,
+  \* integers beyond every machine width, as indexes and slice parts (also what `reference` is handed as a path)
+  Br(U64Max), Br(U64MaxP1), Br(Neg(U64MaxP1)), Br(Rep(<<57>>, 40)), Br(Neg(Rep(<<57>>, 40))), Br(<<58>> \o U64MaxP1), Br(U64MaxP1 \o <<58>>), Br(<<58, 58>> \o U64MaxP1),
+  <<36, 91, 39, 97, 39, 93, 91>> \o U64MaxP1 \o <<93>>, <<36, 91, 48, 93, 91>> \o I64MaxP1 \o <<93>>, Br(<<45, 48>>), Br(<<48, 49>>), Br(<<49, 46, 48>>), Br(<<49, 101, 50>>),
+  \* surrogate escapes in every hex-digit case: lone ones are invalid, well-formed pairs are valid
+  <<36, 91, 39, 92, 117, 100, 99, 48, 48, 39, 93>>, <<36, 91, 39, 92, 117, 68, 99, 48, 48, 39, 93>>, <<36, 91, 39, 92, 117, 100, 98, 102, 102, 39, 93>>, <<36, 91, 39, 92, 117, 100, 66, 102, 102, 92, 117, 100, 67, 48, 48, 39, 93>>, <<36, 91, 63, 64, 46, 97, 61, 61, 39, 92, 117, 100, 101, 97, 100, 39, 93>>, <<36, 91, 39, 92, 117, 100, 56, 51, 100, 92, 117, 100, 101, 48, 48, 39, 93>>, <<36, 91, 39, 92, 117, 100, 98, 102, 102, 92, 117, 100, 102, 102, 102, 39, 93>>, <<36, 91, 39, 92, 117, 100, 102, 102, 102, 92, 117, 100, 56, 48, 48, 39, 93>>, <<36, 91, 39, 92, 117, 100, 97, 48, 48, 120, 39, 93>>, <<36, 91, 39, 92, 117, 68, 56, 51, 100, 39, 93>> >>
 ExtremeDocs == <<"scalar", "empty_arr", "empty_obj", "arr3", "null">>
 
 \* ---- the machine: calls in any order, each followed by exactly one return -----------------
 Cases == [k \in 1..Len(NestKinds) |-> NestQ(NestKinds[k], 8)] \o ExtremeQ
-Entries == <<"parse_json_path", "query", "query_with_path", "query_only_path", "js_path_process">>
+Entries == <<"parse_json_path", "query", "query_with_path", "query_only_path", "js_path_process", "reference", "reference_mut">>
+RefEntries == {"reference", "reference_mut"}
 VARIABLES pc, cur, ent, calls
 vars == <<pc, cur, ent, calls>>
 MaxCalls == 2
@@ -73,15 +83,18 @@ Init == pc = "idle" /\ cur = 0 /\ ent = "" /\ calls = 0
 Call(c, e) == /\ pc = "idle" /\ calls < MaxCalls
               /\ (e = "js_path_process" => Verdict(Cases[c]) = "valid")     \* only a parsed query can be processed
               /\ pc' = "inCall" /\ cur' = c /\ ent' = e /\ calls' = calls + 1
-OkAllowed(q, e)  == Verdict(q) \in {"valid", "unscoped"}
-ErrAllowed(q, e) == e # "js_path_process" /\ Verdict(q) \in {"invalid", "unscoped"}
+OkAllowed(q, e)  == e \notin RefEntries /\ Verdict(q) \in {"valid", "unscoped"}
+ErrAllowed(q, e) == e \notin RefEntries /\ e # "js_path_process" /\ Verdict(q) \in {"invalid", "unscoped"}
+RefAllowed(q, e) == e \in RefEntries
 ReturnOk  == pc = "inCall" /\ OkAllowed(Cases[cur], ent) /\ pc' = "idle" /\ UNCHANGED <<cur, ent, calls>>
 ReturnErr == pc = "inCall" /\ ErrAllowed(Cases[cur], ent) /\ pc' = "idle" /\ UNCHANGED <<cur, ent, calls>>
-Next == (\E c \in 1..Len(Cases) : \E e \in 1..Len(Entries) : Call(c, Entries[e])) \/ ReturnOk \/ ReturnErr
-Spec == Init /\ [][Next]_vars /\ WF_vars(ReturnOk \/ ReturnErr)
+\* reference / reference_mut answer Some(node) or None for every string whatsoever
+ReturnRef == pc = "inCall" /\ RefAllowed(Cases[cur], ent) /\ pc' = "idle" /\ UNCHANGED <<cur, ent, calls>>
+Next == (\E c \in 1..Len(Cases) : \E e \in 1..Len(Entries) : Call(c, Entries[e])) \/ ReturnOk \/ ReturnErr \/ ReturnRef
+Spec == Init /\ [][Next]_vars /\ WF_vars(ReturnOk \/ ReturnErr \/ ReturnRef)
 
 \* every call can return, and it returns (no deadlock in a call; liveness under fairness)
-AlwaysReturnable == pc = "inCall" => (OkAllowed(Cases[cur], ent) \/ ErrAllowed(Cases[cur], ent))
+AlwaysReturnable == pc = "inCall" => (OkAllowed(Cases[cur], ent) \/ ErrAllowed(Cases[cur], ent) \/ RefAllowed(Cases[cur], ent))
 EveryCallReturns == [](pc = "inCall" => <>(pc = "idle"))
 \* the nesting generators produce valid queries (checked for the depths TLC can parse quickly)
 ASSUME NestValid == \A k \in 1..Len(NestKinds) : \A n \in {1, 2, 8, 33} : Verdict(NestQ(NestKinds[k], n)) = "valid"
